@@ -2558,13 +2558,16 @@ class Group(System):
             initialized, the driver for this model must be supplied in order to properly
             initialize the approximations.
         """
+        # this may be a nested call (the sparsity of an approximated model is computed inside the first
+        # linearization of a total derivative computation), so put back whatever was there
+        saved_tot_jac = self._tot_jac
         if driver is not None and self.pathname == '' and self._owns_approx_jac:
             self._tot_jac = _TotalJacInfo(driver._problem(), None, None, 'flat_dict', approx=True)
 
         try:
             super().run_linearize(sub_do_ln=sub_do_ln)
         finally:
-            self._tot_jac = None
+            self._tot_jac = saved_tot_jac
 
     def _apply_nonlinear(self):
         """
